@@ -327,7 +327,7 @@ func (c *Float) Ident() string {
 			return fmt.Sprintf("0x%c%04X", hexPrefix, bits)
 		}
 		if c.X.IsInf() || !float.IsExact16(c.X) {
-			f, acc := binary16.NewFromBig(c.X)
+			f, acc := binary16.NewFromBig(copyOf(c.X))
 			if acc != big.Exact {
 				log.Printf("unable to represent floating-point constant %v of type %v exactly; please submit a bug report to llir/llvm with this error message", c.X, c.Typ)
 			}
@@ -415,7 +415,7 @@ func (c *Float) Ident() string {
 			}
 			return fmt.Sprintf("0x%c%04X%016X", hexPrefix, se, m)
 		}
-		f, acc := float80x86.NewFromBig(c.X)
+		f, acc := float80x86.NewFromBig(copyOf(c.X))
 		if acc != big.Exact {
 			log.Printf("unable to represent floating-point constant %v of type %v exactly; please submit a bug report to llir/llvm with this error message", c.X, c.Typ)
 		}
@@ -432,7 +432,7 @@ func (c *Float) Ident() string {
 			}
 			return fmt.Sprintf("0x%c%016X%016X", hexPrefix, a, b)
 		}
-		f, acc := binary128.NewFromBig(c.X)
+		f, acc := binary128.NewFromBig(copyOf(c.X))
 		if acc != big.Exact {
 			log.Printf("unable to represent floating-point constant %v of type %v exactly; please submit a bug report to llir/llvm with this error message", c.X, c.Typ)
 		}
@@ -453,7 +453,7 @@ func (c *Float) Ident() string {
 			// float128ppc.NegInf is +Inf.
 			return fmt.Sprintf("0x%c%016X%016X", hexPrefix, math.Float64bits(math.Inf(-1)), 0)
 		}
-		f, acc := float128ppc.NewFromBig(c.X)
+		f, acc := float128ppc.NewFromBig(copyOf(c.X))
 		if acc != big.Exact {
 			log.Printf("unable to represent floating-point constant %v of type %v exactly; please submit a bug report to llir/llvm with this error message", c.X, c.Typ)
 		}
@@ -474,4 +474,12 @@ func (c *Float) Ident() string {
 		}
 	}
 	return s
+}
+
+// copyOf returns a copy of x. The conversion functions of mewmew/float set the
+// precision and rounding mode of their argument; handing them the constant's
+// own big.Float made printing write into the constant, which is a data race
+// between two goroutines printing the same module.
+func copyOf(x *big.Float) *big.Float {
+	return new(big.Float).Copy(x)
 }
